@@ -4,6 +4,7 @@
    satisfiable and needed. *)
 From Coq Require Import List ZArith Bool Arith.
 From NT Require Import Sx Rose DictList DictListProofs CaseC14.
+From NTGen Require Import Generated.
 Import ListNotations.
 Open Scope Z_scope.
 
@@ -114,3 +115,12 @@ Proof. reflexivity. Qed.
 Lemma ex_not_unique :
   tree_from_dict (dd_raw ex_raw) 0 (to_dict_list sm_none [T 1 (ex_a (DInt 11)) []; T 2 (ex_a (DInt 11)) []]) = inr E_UNIQUE.
 Proof. reflexivity. Qed.
+
+(* the literal keys of the source (regenerated from /repo on every run) are the
+   keys of the model; the data_id test is [self._data_id != hash(self._data)] *)
+Definition k_node_id : text := [110; 111; 100; 101; 95; 105; 100].
+Lemma source_keys_ok :
+  TO_DICT_KEYS = [k_data; k_data_id; k_children] /\
+  FROM_DICT_KEYS = [k_data; k_data_id; k_node_id; k_children] /\
+  TO_DICT_ID_TEST_IS_NE_HASH = true.
+Proof. repeat split; vm_compute; reflexivity. Qed.
